@@ -45,7 +45,11 @@ def role_of(seq, ix):
 def backend_fns(ctx, be):
     # inlined views: a local helper that builds a type name (prefix + id ...) is seen through
     _, file = emit.BACKENDS[be]
-    return [inline.view(ctx, f) for f in ctx.astq['functions'] if f['file'].endswith(file)]
+    views = [inline.view(ctx, f) for f in ctx.astq['functions'] if f['file'].endswith(file)]
+    # a private helper that is expanded into its callers is judged there, under the caller's name (rule keys stay with the
+    # trait method a reader knows — `write_enum` — when part of its body moves into `write_unit_enum`)
+    expanded = {q for v in views for q in v.get('inlined', [])}
+    return [v for v in views if not (v['qual'] in expanded and not v.get('trait'))]
 
 
 def run(ctx, rep):
